@@ -76,6 +76,23 @@ let dispatch cmd args =
   | "sps" -> cmd_sps (parse_src (arg args 0))
   | "pps" -> cmd_pps (parse_ctx (arg args 0)) (parse_src (arg args 1))
   | "slice" -> cmd_slice (parse_ctx (arg args 0)) (parse_src (arg args 1))
+  | "sei" -> cmd_sei (parse_src (arg args 0)) (nat_of_int (if arg args 1 = "" then 2 else int_of_string (arg args 1)))
+  | "bp" -> cmd_bp (parse_ctx (arg args 0)) (unhex (arg args 1))
+  | "pt" -> cmd_pt (parse_ctx (arg args 0)) (n_of_string (arg args 1)) (unhex (arg args 2))
+  | "t35" -> cmd_t35 (unhex (arg args 0))
+  | "avcc" -> cmd_avcc (unhex (arg args 0))
+  | "ctx" ->
+      cmd_ctx (List.map (fun op ->
+        if starts op "gs" then CoGetSps (n_of_string (after op "gs"))
+        else if starts op "gp" then CoGetPps (n_of_string (after op "gp"))
+        else if op = "it" then CoIter
+        else if starts op "S" then CoSps (unhex (after op "S"))
+        else CoPps (unhex (after op "P"))) (nonempty (split ',' (arg args 0))))
+  | "pipeline" ->
+      let av = if arg args 0 = "-" then None else Some (unhex (arg args 0)) in
+      let ops = List.map (fun p -> if p = "r" then AReset else APush (unhex p)) (nonempty (split ',' (arg args 1))) in
+      let pol = List.map (fun c -> if c = 'I' then Ignore else Buffer) (List.of_seq (String.to_seq (arg args 2))) in
+      cmd_pipeline av ops pol
   | "decode_nal" -> cmd_decode_nal (unhex (arg args 0))
   | _ -> Modelrun2.dispatch cmd args
 
